@@ -352,6 +352,12 @@ func genCall(t *rapid.T, prop string, nSharedP, nSharedF int) Call {
 	case "C13":
 		// the validators, with some generation in between for pool traffic
 		c.Op = rapid.SampledFrom([]string{"ValidateHOTP", "ValidateHOTP", "ValidateTOTP", "ValidateTOTP", "ValidateOCRA", "ValidateOCRA", "GenerateHOTP", "GenerateOCRA"}).Draw(t, "op")
+	case "C03":
+		c.Op = rapid.SampledFrom([]string{"ValidateHOTP", "ValidateHOTP", "ValidateHOTP", "GenerateHOTP", "GenerateHOTP", "GenerateTOTP", "GenerateOCRA"}).Draw(t, "op")
+	case "C04", "C02":
+		c.Op = rapid.SampledFrom([]string{"ValidateTOTP", "ValidateTOTP", "GenerateTOTP", "GenerateTOTP", "GenerateHOTP", "GenerateOCRA"}).Draw(t, "op")
+	case "C06":
+		c.Op = rapid.SampledFrom([]string{"ValidateOCRA", "ValidateOCRA", "GenerateOCRA", "GenerateOCRA", "GenerateHOTP"}).Draw(t, "op")
 	default:
 		c.Op = rapid.SampledFrom(opsC11).Draw(t, "op")
 	}
